@@ -122,8 +122,8 @@ theorem curMgr_eq {s : State} (hi : Inv s) : curMgr s = s.mgr 0 := by
 
 /-! ### admission -/
 
-theorem admit_false {s : State} {id : Nat} {r : Res} {t p : Path} (h : (admit s id r t p).2 = false) : (admit s id r t p).1 = s := by
-  unfold admit at *
+theorem admit_false {s : State} {id : Nat} {r : Res} {t p : Path} (h : (acquire s id r t p).2 = false) : (acquire s id r t p).1 = s := by
+  unfold acquire at *
   by_cases hv : (validPath s t && validPath s p) = true
   · simp only [hv, if_true] at h ⊢
     by_cases hc : canCreate (s.mgr (mgrOf s t)) r = true
@@ -131,11 +131,12 @@ theorem admit_false {s : State} {id : Nat} {r : Res} {t p : Path} (h : (admit s 
     · simp [hc]
   · simp [hv]
 
-theorem admit_true {s : State} (hi : Inv s) {id : Nat} {r : Res} {t p : Path} (h : (admit s id r t p).2 = true) :
+theorem admit_true {s : State} (hi : Inv s) {id : Nat} {r : Res} {t p : Path} (h : (acquire s id r t p).2 = true) :
     validPath s p = true ∧ canCreate (s.mgr 0) r = true ∧
-    (admit s id r t p).1 = { s with mgr := upd s.mgr 0 (incr (s.mgr 0) r), live := s.live ++ [⟨id, r, p⟩],
-                                    gauge := s.gauge.set r (s.gauge.get r + 1) } := by
-  unfold admit at *
+    (acquire s id r t p).1 =
+      { s with mgr := upd s.mgr 0 (incr (s.mgr 0) r), live := s.live ++ [⟨id, r, p⟩],
+               gauge := s.gauge.set r (s.gauge.get r + 1) } := by
+  unfold acquire at *
   by_cases hv : (validPath s t && validPath s p) = true
   · have hv' := hv
     simp only [Bool.and_eq_true] at hv'
@@ -148,13 +149,13 @@ theorem admit_true {s : State} (hi : Inv s) {id : Nat} {r : Res} {t p : Path} (h
 
 /-- an admission is refused exactly when `CanCreate()` of the one manager says so (valid paths) -/
 theorem admit_outcome {s : State} (hi : Inv s) (id : Nat) (r : Res) {t p : Path} (ht : validPath s t = true) (hp : validPath s p = true) :
-    (admit s id r t p).2 = canCreate (s.mgr 0) r := by
-  unfold admit
+    (acquire s id r t p).2 = canCreate (s.mgr 0) r := by
+  unfold acquire
   simp [ht, hp, mgrOf_valid hi ht]
   by_cases hc : canCreate (s.mgr 0) r = true <;> simp [hc]
 
-theorem inv_admit {s : State} (hi : Inv s) (id : Nat) (r : Res) (t p : Path) : Inv (admit s id r t p).1 := by
-  cases hb : (admit s id r t p).2 with
+theorem inv_admit {s : State} (hi : Inv s) (id : Nat) (r : Res) (t p : Path) : Inv (acquire s id r t p).1 := by
+  cases hb : (acquire s id r t p).2 with
   | false => rw [admit_false hb]; exact hi
   | true =>
     obtain ⟨hv, _, he⟩ := admit_true hi hb
@@ -166,8 +167,8 @@ theorem inv_admit {s : State} (hi : Inv s) (id : Nat) (r : Res) (t p : Path) : I
     · exact hi.lv hd hm
     · subst hm; cases p <;> simpa [validPath] using hv
 
-theorem ledger_admit {s : State} (hi : Inv s) (hl : Ledger s) (id : Nat) (r : Res) (t p : Path) : Ledger (admit s id r t p).1 := by
-  cases hb : (admit s id r t p).2 with
+theorem ledger_admit {s : State} (hi : Inv s) (hl : Ledger s) (id : Nat) (r : Res) (t p : Path) : Ledger (acquire s id r t p).1 := by
+  cases hb : (acquire s id r t p).2 with
   | false => rw [admit_false hb]; exact hl
   | true =>
     obtain ⟨_, _, he⟩ := admit_true hi hb
@@ -183,8 +184,8 @@ theorem ledger_admit {s : State} (hi : Inv s) (hl : Ledger s) (id : Nat) (r : Re
     · have hr' : ¬ r = r' := fun h => hr h.symm
       simp [hr, hr']; exact this
 
-theorem gauges_admit {s : State} (hi : Inv s) (hg : Gauges s) (id : Nat) (r : Res) (t p : Path) : Gauges (admit s id r t p).1 := by
-  cases hb : (admit s id r t p).2 with
+theorem gauges_admit {s : State} (hi : Inv s) (hg : Gauges s) (id : Nat) (r : Res) (t p : Path) : Gauges (acquire s id r t p).1 := by
+  cases hb : (acquire s id r t p).2 with
   | false => rw [admit_false hb]; exact hg
   | true =>
     obtain ⟨_, _, he⟩ := admit_true hi hb
@@ -369,19 +370,19 @@ end update
 
 theorem inv_step {s : State} (hi : Inv s) (op : Op) : Inv (step Code.gen s op) := by
   cases op with
-  | admit id r t p => exact inv_admit hi id r t p
+  | acquire id r t p => exact inv_admit hi id r t p
   | release id => exact inv_release hi id
   | update p thr st n => exact inv_update s p thr st n hi
 
 theorem gauges_step {s : State} (hi : Inv s) (hg : Gauges s) (op : Op) : Gauges (step Code.gen s op) := by
   cases op with
-  | admit id r t p => exact gauges_admit hi hg id r t p
+  | acquire id r t p => exact gauges_admit hi hg id r t p
   | release id => exact gauges_release hi hg id
   | update p thr st n => exact gauges_update s p thr st n hg
 
 theorem ledger_step {s : State} (hi : Inv s) (hl : Ledger s) (op : Op) (hz : zeroStableOp s op = true) : Ledger (step Code.gen s op) := by
   cases op with
-  | admit id r t p => exact ledger_admit hi hl id r t p
+  | acquire id r t p => exact ledger_admit hi hl id r t p
   | release id => exact ledger_release hi hl id
   | update p thr st n => exact ledger_update s p thr st n hi hl hz
 
